@@ -702,7 +702,12 @@ class VerilogGenerator:
             link = ""
             
             for paramName in paramNames:
-                str += link + 'parameter ' +  paramName
+                # the value of this instance is the default value: a parameter without one
+                # is not legal Verilog, and the module could never be the top level
+                paramValue = obj.parameters[paramName]
+                while (isinstance(paramValue, Parameter)):
+                    paramValue = paramValue.obj.parameters[paramValue.name]
+                str += link + 'parameter {} = {}'.format(paramName, paramValue)
                 link = ',\n\t'
                 
             str += ')\n'
